@@ -41,6 +41,11 @@ UNKNOWN_REGEX = re.compile(
 # Recognized register names
 REGISTERS = ["A", "B", "D", "X", "Y", "U", "S", "CC", "DP", "PC"]
 
+# Pattern to recognize the register part of an indexed operand
+INDEX_REGISTER_REGEX = re.compile(
+    r"^(PCR|[XYUS]|[XYUS]\+{1,2}|-{1,2}[XYUS])$"
+)
+
 # C L A S S E S ###############################################################
 
 
@@ -151,6 +156,19 @@ class Operand(ABC):
             return DirectOperand(self.operand_string, self.instruction, value=self.value)
 
         return ExtendedOperand(self.operand_string, self.instruction, value=self.value)
+
+    def check_index_register(self):
+        """
+        Checks that the register part of an indexed operand names exactly one
+        pointer register (optionally auto incremented or decremented) or PCR, and
+        that an offset is only combined with a plain register.
+        """
+        if type(self.right) != str or not INDEX_REGISTER_REGEX.match(self.right):
+            raise OperandTypeError("[{}] invalid index register".format(self.operand_string))
+        if self.left == "" and self.right == "PCR":
+            raise OperandTypeError("[{}] PCR requires an offset".format(self.operand_string))
+        if self.left != "" and ("+" in self.right or "-" in self.right):
+            raise OperandTypeError("[{}] invalid indexed expression".format(self.operand_string))
 
     @abstractmethod
     def translate(self):
@@ -531,6 +549,8 @@ class ExtendedIndexedOperand(Operand):
         additional = NoneValue()
         additional_needs_resolution = False
 
+        self.check_index_register()
+
         if "X" in self.right:
             raw_post_byte |= 0x00
         if "Y" in self.right:
@@ -674,6 +694,8 @@ class IndexedOperand(Operand):
         max_size = size
         additional = NoneValue()
         additional_needs_resolution = False
+
+        self.check_index_register()
 
         # Determine register (if any)
         if "X" in self.right:
